@@ -265,10 +265,22 @@ def analyse(obs: Obs, prog):
             expected="new score - old score  (the fresh branch's own edit weight must not be added on top: with a constraint covering the new branch no random choice is introduced)", where=w)
     # The Python-level test on the index TAG (NoChange or not) picks the branch functions: every obligation on the chosen results is decided once per outcome
     # of that test, on the result with the joins on it collapsed - however the source spells the join (two switches, one comprehension over a conditional, ...)
-    c_noc = mk_cmp("==", tang, NOC)
-    scen = [(pol_, tuple(renorm(resolve(x, c_noc, pol_)) for x in q), {k_: renorm(resolve(v_, c_noc, pol_)) for k_, v_ in f.items()}) for pol_ in (True, False)]
+    # (the tests are found in the result: joins whose two arms are built from different switches)
+    has_ms = lambda t_: any(is_t(x_, "mswitch") for x_ in subterms(t_))
+    sw_tests = list(dict.fromkeys(x_[1] for x_ in subterms(("tuple", tuple(q))) if is_t(x_, "phi") and has_ms(x_[2]) and has_ms(x_[3]) and not has_ms(x_[1])))[:3]
+
+    def _under(t_, asg):
+        for c_, pol_ in asg:
+            t_ = resolve(t_, c_, pol_)
+        return renorm(t_)
+
+    import itertools as _it
+    scen = [(asg, tuple(_under(x, asg) for x in q), {k_: _under(v_, asg) for k_, v_ in f.items()})
+            for asg in ([tuple(zip(sw_tests, pols)) for pols in _it.product((True, False), repeat=len(sw_tests))] or [()])]
+    # a test under which the index certainly has its old value: its tag is NoChange, or no argument at all changed
+    keeps_index = lambda c_: c_ == mk_cmp("==", tang, NOC) or (is_call(c_, "static_check_no_change") and c_[2] in ((AD,), (mk_proj(AD, 0),)))
     if is_t(wt, "phi"):
-        okw0 = is_t(renorm(resolve(wt[3], c_noc, True)), "choose")
+        okw0 = all(is_t(_under(wt[3], asg), "choose") for asg, _q, _f in scen)
         obs.add({"C05", "C13"}, "WEIGHT-UPD", "Switch.edit/same-index-weight", okw0, derived=show(wt[3])[:200], expected="choose(idx, [w_i])", where=w)
     # tree_choose needs the per-branch retdiffs to have ONE tree structure, and change tags are static structure: a constraint that reaches the return value of
     # one branch only (branches with distinct addresses - the documented use) makes the tags differ.  Every raw branch retdiff handed to the choice must therefore
@@ -323,7 +335,7 @@ def analyse(obs: Obs, prog):
             if _mask_call(A_) and is_mcall(B_, "mask") and len(A_[2]) == 1 and len(B_[2]) == 1:
                 fa, fb = A_[2][0], B_[2][0]
                 same_val = lambda t: is_t(t, "cmp") and t[1] == "==" and old_idx in (t[2], t[3]) and any(normalised(x, RAWN) for x in (t[2], t[3]))
-                flag_ok = (is_t(fa, "phi") and fa[1] == mk_cmp("==", tang, NOC) and fa[2] == C(True) and same_val(fa[3])) or same_val(fa)
+                flag_ok = (is_t(fa, "phi") and keeps_index(fa[1]) and fa[2] == C(True) and same_val(fa[3])) or same_val(fa)
                 neg_ok = is_call(fb, "not_") and fb[2] == (fa,) or fb == ("un", "not", fa) or fb == ("un", "~", fa)
                 own_discard = mentions_any(A_[1], lambda x: is_t(x, "attr") and x[2] == "constraint" and mentions_any(x[1], lambda y: is_t(y, "proj") and y[2] == 3))
                 old_choices = B_[1][1] == choices_of(("elem", tsub))
@@ -333,7 +345,16 @@ def analyse(obs: Obs, prog):
             expected="Update(ChoiceMap.switch(trace.get_idx(), [bwd_i.constraint.mask(same) | old_subtrace_i.get_choices().mask(not same)])) with same = (clamp(new idx) == trace.get_idx())", where=w)
     asr = [t for c, t in r.asserts]
     obs.add({"C06"}, "REQ-ACCEPT", "Switch.edit", any(is_t(t, "isinst") and t[1] == P("edit_request") and t[2] == "Update" for t in asr), derived=[show(t) for t in asr], expected="assert isinstance(edit_request, Update)", where=w)
-    obs.add({"C08", "C13"}, "TAG-BRANCH-INVENTORY", "Switch.edit/index-tag", mentions(r.ret, mk_cmp("==", tang, NOC)) and mentions(r.ret, mk_cmp("==", tang, UNK)), derived="branches on the index tangent", expected="documented resampling trigger: NoChange keeps branches, UnknownChange resimulates", where=w)
+    # the plain per-branch edit of the EXISTING subtraces (no value gate, no fresh simulation) is only right when the index certainly kept its value:
+    # every outcome of the Python-level tests that uses it must have established that (index tag NoChange, or no argument changed at all)
+    ungated = []
+    for asg, qs_, _fs in scen:
+        used = [m_[2][2] for m_ in fam_body(("tuple", qs_[:3])) if is_t(m_[2], "fam")]
+        if same_body in used and not any(pol_ and keeps_index(c_) for c_, pol_ in asg):
+            ungated.append(", ".join(("" if pol_ else "not ") + show(c_)[:70] for c_, pol_ in asg) or "unconditionally")
+    obs.add({"C08", "C13"}, "TAG-BRANCH-INVENTORY", "Switch.edit/index-tag", not ungated and bool(sw_tests), construct="condition under which the existing subtraces are edited in place",
+            derived=f"plain branch edits used when: {ungated}" if ungated else f"plain branch edits only under {[show(c_)[:70] for c_ in sw_tests if keeps_index(c_)]}",
+            expected="in-place edits only when the index tag is NoChange (or nothing changed); otherwise the value-gated fresh-branch family", where=w)
     obs.note({"C04"}, "Switch._make_edit_fresh_trace reuses one key for simulate and the following edit (edit path; outside C04's statement)")
 
     # ---------------------------------------------------------------- switch() / or_else / mix
